@@ -294,22 +294,26 @@ package mapping
 //@   ghost at entry: inLoop = false
 //@   ghost at after NumField#0: total = ret
 //@   ghost at after NumField#0: inLoop = true
+//@   ghost at entry: allok = true
 //@   ghost at after processField#0: done = done + 1
-//@   loop 0: invariant 0 <= i && i <= numFields && done == i && numFields == total && inLoop
+//@   ghost at after processField#0: allok = allok && (ret == nil)
+//@   loop 0: invariant 0 <= i && i <= numFields && done == i && numFields == total && inLoop && allok
 //@   call processField#*: assert arg_m == m && arg_fullName == fullName
-//@   ensures implies(result == nil, inLoop && done == total)
+//@   ensures implies(result == nil, inLoop && done == total && allok)
 
 //@ func (u *Unmarshaler) processAnonymousFieldRequired
 //@   property C08
 //@   requires m != nil
 //@   ghost at entry: done = 0
 //@   ghost at entry: named = false
+//@   ghost at entry: allok = true
 //@   ghost at after processField#0: done = done + 1
+//@   ghost at after processField#0: allok = allok && (ret == nil)
 //@   ghost at after processNamedField#0: named = (ret == nil)
-//@   loop 0: invariant 0 <= i && i <= derefedFieldType.NumField() && done == i
+//@   loop 0: invariant 0 <= i && i <= derefedFieldType.NumField() && done == i && allok
 //@   call processField#*: assert arg_m == m
 //@   call processNamedField#*: assert arg_m == m
-//@   ensures implies(result == nil, named || done == Deref(field.Type).NumField())
+//@   ensures implies(result == nil, named || (done == Deref(field.Type).NumField() && allok))
 
 //@ func (u *Unmarshaler) processField
 //@   property C08
